@@ -507,6 +507,21 @@ def _asdict(ex, e, obj, args, kwargs, p):
     return [(app("nt_asdict", asV(obj)), p)]
 
 
+@lib("Command", "A-cpython")
+def _command(ex, e, args, kwargs, p):
+    return [(app("Command" + "".join("_" + k for k in sorted(kwargs)), *[asV(a) for a in args], *[asV(v) for k, v in sorted(kwargs.items())]), p)]
+
+
+@lib("nx.DiGraph", "A-networkx")
+def _nxdigraph(ex, e, args, kwargs, p):
+    return [(app("NEW_nx_DiGraph", *[asV(a) for a in args]), p)]
+
+
+@lib("isomorphism.DiGraphMatcher", "A-networkx")
+def _matcher(ex, e, args, kwargs, p):
+    return [(app("NEW_DiGraphMatcher", *[asV(a) for a in args]), p)]
+
+
 @method("is_isomorphic", "A-networkx")
 def _isiso(ex, e, obj, args, kwargs, p):
     return [(pred("nx_is_isomorphic", asV(obj)), p)]
